@@ -663,21 +663,23 @@ once and before the packing loop; packing and receiving are two different loops 
 `<` number of old neighbours, step 1), the first finished before the second begins — so every message is packed from
 the pre-sync state and no process waits before all its messages are on their way (what `inbox` assumes); the receives
 lie between `beginResize` and `endResize` (one resize: `finish`); `repairLocalIndexPointers` runs after `endResize` and
-before `globalMap_` is emptied (`resolve`); `iteratorsMap_`, `oldMap_`, `addedIndices_`, `globalMap_`, `infoSend_` are
-emptied unconditionally after the receives (a second sync on the same object behaves like the first: histories are
-compositions of `sync`); both sequence numbers are taken from the index set after `endResize` (`isSynced`); the wait
+not after `globalMap_` was emptied (`resolve`); `iteratorsMap_`, `oldMap_`, `addedIndices_`, `globalMap_`, `infoSend_` are
+each emptied exactly once per sync, unconditionally, before their first or after their last use (a second sync on
+the same object behaves like the first: histories are compositions of `sync`); both sequence numbers are taken from the index set after `endResize` (`isSynced`); the wait
 for the synchronous sends comes after the receives. -/
 theorem sync_phases_sound :
     syncPhasesOK Gen.syncPhases = true ∧ Gen.packLoop.full = true ∧ Gen.recvLoop.full = true := by decide
 
 /-- non-vacuity: the predicate rejects orders the model does not describe - receiving before all messages are packed
 (one loop doing both), a member that is not emptied (the object-reuse defect `fixes/C13_syncer_object_reusable.patch`
-repaired), repair before the index set is sorted again - and the generated list has all 15 events -/
+repaired), repair before the index set is sorted again -, the generated list has all 15 events, and an equivalent order is
+accepted (`infoSend_` emptied at the start of `sync` instead of at its end) -/
 example : syncPhasesOK (Gen.syncPhases.map fun e => if e.ph == .recv then { e with loop := 2 } else e) = false ∧
     syncPhasesOK (Gen.syncPhases.filter fun e => e.ph != .clearInfo) = false ∧
     syncPhasesOK (Gen.syncPhases.map fun e =>
       if e.ph == .repair then { e with ph := .endResize } else if e.ph == .endResize then { e with ph := .repair } else e) = false ∧
-    Gen.syncPhases.length = 15 := by decide
+    Gen.syncPhases.length = 15 ∧
+    syncPhasesOK ((⟨.clearInfo, 0, false⟩ : SyncEv) :: Gen.syncPhases.filter fun e => e.ph != .clearInfo) = true := by decide
 
 /-- **Branch conditions of `insertIntoRemoteIndexList`**, regenerated from the source: the control-flow skeleton the
 translator checks (advance / insert-and-return / scan the run of equal keys / insert unless found) with the
